@@ -228,6 +228,7 @@ type Interp struct {
 	breaks      []*brk
 	continues   []*brk
 	fellThrough bool
+	closLits    map[types.Object]*ast.FuncLit
 	byRef       bool   // closure body: assignments to captured variables are written back to the caller's frame
 	contGuard   string // set by execIf: guard under which the rest of the enclosing block runs
 	curLit      *ast.FuncType
